@@ -68,13 +68,16 @@ fn hash_name(cfg: &Cfg, p: &PaymentHash) -> Option<String> {
 fn concretize(c: &Value) -> (Vec<HTLCInfo2>, Vec<HTLCInfo2>) {
     let mut off = vec![];
     let mut rcv = vec![];
-    for (i, x) in c.as_array().expect("content").iter().enumerate() {
+    let l = c.as_array().expect("content");
+    for (i, x) in l.iter().enumerate() {
         let a = x["a"].as_u64().unwrap();
         let h = payment_hash(x["h"].as_str().unwrap());
+        // identical parts of one payment are told apart by their expiry
+        let k = l[..i].iter().filter(|y| *y == x).count() as u32;
         if x["d"] == "o" {
-            off.push(HTLCInfo2 { value_sat: a * UNIT, payment_hash: h, cltv_expiry: CLTV_OUT + i as u32 });
+            off.push(HTLCInfo2 { value_sat: a * UNIT, payment_hash: h, cltv_expiry: CLTV_OUT + k });
         } else {
-            rcv.push(HTLCInfo2 { value_sat: a * UNIT, payment_hash: h, cltv_expiry: CLTV_IN + i as u32 });
+            rcv.push(HTLCInfo2 { value_sat: a * UNIT, payment_hash: h, cltv_expiry: CLTV_IN + k });
         }
     }
     (off, rcv)
